@@ -386,6 +386,64 @@ func deepPath(v ssa.Value) accessPath {
 	return p
 }
 
+// throughCountingHelper follows a counter that is computed by a module helper
+// (`usable, unusable := countParityShards(d.parityShards)`): it returns the value
+// the helper returns in that position and a mapping from access paths rooted at the
+// helper's parameters to paths in the caller.
+func throughCountingHelper(w *World, val ssa.Value) (ssa.Value, func(accessPath) accessPath) {
+	mapPath := func(p accessPath) accessPath { return p }
+	for depth := 0; depth < 3; depth++ {
+		idx := 0
+		var call *ssa.Call
+		switch x := val.(type) {
+		case *ssa.Extract:
+			call, _ = x.Tuple.(*ssa.Call)
+			idx = x.Index
+		case *ssa.Call:
+			call = x
+		}
+		if call == nil {
+			break
+		}
+		g := call.Call.StaticCallee()
+		if g == nil || len(g.Blocks) == 0 || g.Pkg == nil || !isModPath(g.Pkg.Pkg.Path()) {
+			break
+		}
+		var rets []ssa.Value
+		for _, b := range g.Blocks {
+			if ret, ok := b.Instrs[len(b.Instrs)-1].(*ssa.Return); ok && idx < len(ret.Results) {
+				dup := false
+				for _, v := range rets {
+					if v == ret.Results[idx] {
+						dup = true
+					}
+				}
+				if !dup {
+					rets = append(rets, ret.Results[idx])
+				}
+			}
+		}
+		if len(rets) != 1 {
+			break
+		}
+		outer := mapPath
+		args := call.Call.Args
+		params := g.Params
+		mapPath = func(p accessPath) accessPath {
+			for j, prm := range params {
+				if p.Root == ssa.Value(prm) && j < len(args) {
+					q := deepPath(args[j])
+					q.Path += p.Path
+					return outer(q)
+				}
+			}
+			return outer(p)
+		}
+		val = rets[0]
+	}
+	return val, mapPath
+}
+
 type countSpec struct {
 	fn     string
 	field  string
@@ -472,6 +530,7 @@ func ruleDECIDECounts(w *World, r *Report, pkgs map[string]bool) {
 			continue
 		}
 		n++
+		val, mapPath := throughCountingHelper(w, val)
 		incs, other := incrementsOf(val)
 		if len(other) > 0 {
 			r.bad("DECIDE", key, w.pos(fn.Pos()), fmt.Sprintf("%s is not a pure counter (0 plus increments): it also depends on %s", cs.field, other[0].String()))
@@ -492,7 +551,7 @@ func ruleDECIDECounts(w *World, r *Report, pkgs map[string]bool) {
 			if isNilConst(el) {
 				el = c.Y
 			}
-			p := deepPath(el)
+			p := mapPath(deepPath(el))
 			if isReceiver(fn, p.Root) && p.Path == cs.suffix {
 				desc = fmt.Sprintf("d%s %s nil", p.Path, c.Op)
 				if c.Op == cs.op {
